@@ -65,18 +65,23 @@ func (b *Book) Distinct(sample any, key ...any) {
 	}
 }
 
-// Finish stores the distinct count.
+// Finish stores the counts: executions (= evaluations in the evidence) = checked transfers, i.e. grid points
+// or tampering runs; transitions = fresh connections set up for them (each in its own bubble; in the grids
+// several transfers follow one another on one connection).
 func (b *Book) Finish() {
 	b.R.Distinct += int64(len(b.distinct))
-	b.R.Transitions += b.Transfers // one transition = one checked transfer (several per fresh session)
+	b.R.Executions += b.Transfers
+	b.R.Transitions += int64(b.N)
 }
 
 // Fidelity files the result of RunFidelity (one execution = one fresh Link with res.Done intact transfers);
 // caseOf(i) describes item i for the replay record. Returns false when a violation was filed.
 func (b *Book) Fidelity(layer string, res SeqResult, items int, caseOf func(i int) any) (ok bool) {
 	b.N++
-	b.R.Executions++
 	b.Transfers += int64(res.Done)
+	if res.Panic != "" || res.Infra != nil || (res.Problem != nil && res.Done < items) {
+		b.Transfers++ // the transfer that failed
+	}
 	at := res.Done
 	if at >= items {
 		at = items - 1
@@ -106,7 +111,6 @@ func (b *Book) Tamper(layer string, res TamperResult, e Edit, L int, c any) stri
 		return ""
 	}
 	b.N++
-	b.R.Executions++
 	b.Transfers++
 	switch {
 	case res.Panic != "":
